@@ -328,6 +328,11 @@ impl VirtualSystem {
         // TODO Support AT_FDCWD
         const _POSIX_SYMLOOP_MAX: i32 = 8;
 
+        // An empty pathname does not name the working directory.
+        if path.as_unix_str().is_empty() {
+            return Err(Errno::ENOENT);
+        }
+
         let mut path = Cow::Borrowed(path);
         for _count in 0.._POSIX_SYMLOOP_MAX {
             let resolved_path = self.resolve_relative_path(&path);
@@ -407,6 +412,13 @@ impl VirtualSystem {
         flags: EnumSet<OpenFlag>,
         mode: Mode,
     ) -> Result<(Rc<RefCell<Inode>>, bool, bool)> {
+        // An empty pathname does not name the working directory.
+        if path.is_empty() {
+            return Err(Errno::ENOENT);
+        }
+        // A pathname with a trailing slash can only name a directory, which
+        // this function never creates.
+        let names_directory = path.to_bytes().ends_with(b"/");
         let path = self.resolve_relative_path(Path::new(UnixStr::from_bytes(path.to_bytes())));
         let umask = self.current_process().umask;
 
@@ -432,6 +444,9 @@ impl VirtualSystem {
                     content.clear();
                 };
                 inode
+            }
+            Err(Errno::ENOENT) if flags.contains(OpenFlag::Create) && names_directory => {
+                return Err(Errno::EISDIR);
             }
             Err(Errno::ENOENT) if flags.contains(OpenFlag::Create) => {
                 let mut inode = Inode::new([]);
